@@ -12,7 +12,7 @@ RULE = ("pairs of discs by class (tangent within k ulps externally/internally, e
         "offset positions); non-trivial = proper lens or within 16 ulps of a tangency; distinct = distinct (c1,r1,c2,r2)")
 ASSUMPTIONS = [
     "finite positive radii between 1e-6 and 1e6, finite centres up to 1e6 in magnitude",
-    "symmetry and bounds are judged with slack 1e-6*max(r)^2 (near tangency acos is ill-conditioned: rounding noise of the two evaluation orders reaches ~1e-7*max(r)^2, a tenth of this slack and a hundredth of the accuracy bound); accuracy with the stated 1e-5*max(r)^2",
+    "bounds are judged with the one numeric tolerance the property states, 1e-5*max(r)^2, symmetry with twice that: with nearly equal radii r1^2-r2^2 cancels and the area error reaches ~1e-6*max(r)^2 (seen only in the 20M-case thorough tier), inside the accuracy bound",
 ]
 CASES = {"quick": 600000, "thorough": 20000000}
 MIN_CASES = {"quick": 100000, "thorough": 500000}
@@ -195,9 +195,9 @@ def check(case, ctx):
             ctx.violation("raised", f"after moving the centres in place: {v3!r}")
         elif abs(_mp.mpf(v3) - ex3) > 1e-5 * rmax2:
             ctx.violation("stale_after_move", f"after moving the centres in place to {n1} / {n2} the area is {v3!r}, exact {float(ex3)!r} (r1={r1!r}, r2={r2!r})")
-    slack = 1e-6 * rmax2
+    slack = 1e-5 * rmax2          # the one numeric tolerance the property states
     ctx.count("symmetry_checked")
-    if abs(v - w) > slack:
+    if abs(v - w) > 2 * slack:
         ctx.violation("asymmetric", f"f(a,b)={v!r} but f(b,a)={w!r} (max r^2={rmax2})")
     amin = math.pi * min(r1, r2) ** 2
     if v < -slack or v > amin + slack:
